@@ -332,6 +332,12 @@ func (e *Engine) runPath(h *HarnessSpec, solver *Solver, prefix []Decision, lim 
 	in.ensureInit(h.Fn.Pkg)
 	in.callSSA(nil, token.NoPos, h.Fn, nil, nil)
 	in.drain()
+	for _, m := range in.mutexes {
+		if m.writer || m.readers > 0 {
+			in.reportViolation("lock", "a mutex is still held when the operation has returned", h.Name+":end")
+			break
+		}
+	}
 	if lk := in.leaked(); len(lk) > 0 && !in.allowLeak() {
 		in.reportViolation("leak", "goroutines still blocked at end of harness: "+strings.Join(lk, "; "), h.Name+":end")
 	}
